@@ -351,16 +351,30 @@ def _alias_hints(obj: tp.Any) -> dict[str, type[tp.Any]]:
         hints = tp.get_type_hints(generic)
     except (NameError, TypeError):
         return {}
-    given = dict(zip(params, tp.get_args(obj)))
+    return _bind_parameters(hints, obj)
+
+
+def _bind_parameters(
+    hints: dict[str, type[tp.Any]], alias: tp.Any
+) -> dict[str, type[tp.Any]]:
+    # The hints of a generic class, its type parameters replaced by the arguments of `alias`.
+    given = dict(zip(tp.get_origin(alias).__parameters__, tp.get_args(alias)))
     for name, hint in hints.items():
         if hint in given:
             hints[name] = given[hint]
-        elif getattr(hint, "__parameters__", ()):
+        # (A bare generic class is not waiting for arguments: `raw: Box` stays `Box`.)
+        elif getattr(hint, "__parameters__", ()) and not inspect.isclass(hint):
             hints[name] = hint[tuple(given.get(p, p) for p in hint.__parameters__)]
     return hints
 
 
 def _hints_from_signature(obj: tp.Union[type, tp.Callable]) -> dict[str, type[tp.Any]]:
+    # `Stack[int]` for a user-defined generic `Stack` is no callable with a signature of
+    #   its own: the constructor is the one of `Stack`, with its type parameters bound.
+    generic = tp.get_origin(obj)
+    params = getattr(generic, "__parameters__", ())
+    if inspect.isclass(generic) and params and isinstance(params, tuple):
+        return _bind_parameters(_hints_from_signature(generic), obj)
     try:
         params: dict[str, inspect.Parameter] = {**signature(obj).parameters}
     except (TypeError, ValueError):  # pragma: no cover
